@@ -67,6 +67,9 @@ func init() {
 		mutation{"join-release-before-advisory", "chord/local_membership.go", "	if err := predecessor.FinishJoin(true, false); err != nil { // advisory to let predecessor update successor list\n		n.logger.Warn(\"error sending advisory to predecessor\", zap.Error(err))\n	}\n	n.state.Set(chord.Active)                                     // release local join lock\n	if err := successors[0].FinishJoin(false, true); err != nil { // release successor join lock\n		n.logger.Warn(\"error releasing join lock in successor\", zap.Error(err))\n	}", "	n.state.Set(chord.Active)                                     // release local join lock\n	if err := successors[0].FinishJoin(false, true); err != nil { // release successor join lock\n		n.logger.Warn(\"error releasing join lock in successor\", zap.Error(err))\n	}\n	if err := predecessor.FinishJoin(true, false); err != nil { // advisory to let predecessor update successor list\n		n.logger.Warn(\"error sending advisory to predecessor\", zap.Error(err))\n	}", "advisory-order"},
 		mutation{"join-no-advisory", "chord/local_membership.go", "	if err := predecessor.FinishJoin(true, false); err != nil { // advisory to let predecessor update successor list\n		n.logger.Warn(\"error sending advisory to predecessor\", zap.Error(err))\n	}\n	n.state.Set(chord.Active) ", "	n.state.Set(chord.Active) ", "advisory-order"},
 		mutation{"join-advisory-after-local-set", "chord/local_membership.go", "	if err := predecessor.FinishJoin(true, false); err != nil { // advisory to let predecessor update successor list\n		n.logger.Warn(\"error sending advisory to predecessor\", zap.Error(err))\n	}\n	n.state.Set(chord.Active)                                     // release local join lock\n", "	n.state.Set(chord.Active)                                     // release local join lock\n	if err := predecessor.FinishJoin(true, false); err != nil { // advisory to let predecessor update successor list\n		n.logger.Warn(\"error sending advisory to predecessor\", zap.Error(err))\n	}\n", "!advisory-order"},
+		mutation{"low-default-then-override", "chord/local_chord.go", "	if prevPredecessor == nil {\n		low = n\n	} else {\n		low = prevPredecessor\n	}", "	low = n\n	if prevPredecessor != nil {\n		low = prevPredecessor\n	}", "!range-args"},
+		mutation{"low-always-self", "chord/local_chord.go", "	if prevPredecessor == nil {\n		low = n\n	} else {\n		low = prevPredecessor\n	}", "	low = n\n	if prevPredecessor == nil {\n		low = n\n	}", "range-args"},
+		mutation{"low-prev-even-when-nil", "chord/local_chord.go", "	if prevPredecessor == nil {\n		low = n\n	} else {\n		low = prevPredecessor\n	}", "	low = prevPredecessor", "range-args"},
 		mutation{"range-from-self", "chord/local_chord.go", "keys, err = n.kv.RangeKeys(ctx, low.ID(), newPredecessor.ID())", "keys, err = n.kv.RangeKeys(ctx, n.ID(), newPredecessor.ID())", "range-args"},
 		mutation{"surrogate-test-open", "chord/local_kv.go", "chord.Between(n.ID(), id, n.surrogate.Identity().GetId(), true)", "chord.Between(n.ID(), id, n.surrogate.Identity().GetId(), false)", "interval"},
 		mutation{"stale-test-not-negated", "chord/local_kv.go", "n.predecessor != nil && !chord.Between(n.predecessor.ID(), id, n.ID(), true)", "n.predecessor != nil && chord.Between(n.predecessor.ID(), id, n.ID(), true)", "interval"},
@@ -590,19 +593,116 @@ func runC05(c *Ctx) {
 			c.Ob("range-guard", "transferKeysUpward#RangeKeys-after-interval-test", call.Pos(), okCut, "keys are selected only after the joiner was found inside our range")
 		}
 	}
-	// low selection: nil previous predecessor -> self
+	// low selection: nil previous predecessor -> self. Decided on the definitions of the
+	// variable and the paths between them (if/else, default-then-override and a helper
+	// expression are alike): (1) every assignment of the previous predecessor to low is
+	// made knowing it is non-nil; (2) with the "previous predecessor is nil" edges removed,
+	// the first use of low is unreachable without passing such an assignment; (3) every
+	// other definition is the node itself.
 	lowOK := false
-	ast.Inspect(up.Body, func(n ast.Node) bool {
-		ifs, ok := n.(*ast.IfStmt)
-		if !ok {
-			return true
+	{
+		var lowVar *types.Var
+		for _, call := range rk {
+			if len(call.Args) == 3 {
+				if se, ok := ast.Unparen(call.Args[1]).(*ast.CallExpr); ok {
+					if sel, ok := se.Fun.(*ast.SelectorExpr); ok {
+						lowVar = up.varOf(sel.X)
+					}
+				}
+			}
 		}
-		be, ok := ifs.Cond.(*ast.BinaryExpr)
-		if ok && be.Op == token.EQL && up.Prov(be.X) == "param#1" && isNilIdent(up.Info, be.Y) && ifs.Else != nil {
-			lowOK = true
+		isPrevNil := func(e ast.Expr, truth bool) (isNil, ok bool) {
+			be, isBin := ast.Unparen(e).(*ast.BinaryExpr)
+			if !isBin || (be.Op != token.EQL && be.Op != token.NEQ) {
+				return false, false
+			}
+			x, y := be.X, be.Y
+			if isNilIdent(up.Info, x) {
+				x, y = y, x
+			}
+			if !isNilIdent(up.Info, y) || up.Prov(x) != "param#1" {
+				return false, false
+			}
+			return (be.Op == token.EQL) == truth, true
 		}
-		return true
-	})
+		if lowVar != nil {
+			var prevDefs []ast.Node
+			okDefs := true
+			for _, d := range up.defNodes(lowVar) {
+				var rhs ast.Expr
+				switch x := d.(type) {
+				case *ast.AssignStmt:
+					for i, l := range x.Lhs {
+						if up.varOf(l) == lowVar && i < len(x.Rhs) {
+							rhs = x.Rhs[i]
+						}
+					}
+				case *ast.ValueSpec:
+					for i, nm := range x.Names {
+						if up.Info.Defs[nm] == types.Object(lowVar) && i < len(x.Values) {
+							rhs = x.Values[i]
+						}
+					}
+				}
+				if rhs == nil {
+					continue // declaration without a value
+				}
+				switch up.Prov(rhs) {
+				case "param#1":
+					prevDefs = append(prevDefs, d)
+					if !up.FactsAt(d).Cmp(func(e, tag ast.Expr, truth bool, fa *Fact) bool {
+						isNil, ok := isPrevNil(e, truth)
+						return ok && tag == nil && !isNil
+					}) {
+						okDefs = false
+					}
+				case "recv":
+				default:
+					okDefs = false
+				}
+			}
+			// first use: the interval test / RangeKeys
+			var uses []ast.Node
+			ast.Inspect(up.Body, func(n ast.Node) bool {
+				if se, ok := n.(*ast.SelectorExpr); ok && up.varOf(se.X) == lowVar {
+					uses = append(uses, se)
+				}
+				return true
+			})
+			reached, _ := up.Reach(nil, func(n ast.Node) bool {
+				for _, d := range prevDefs {
+					if n == d {
+						return true
+					}
+				}
+				return false
+			}, func(b *cfgBlock, si int) bool {
+				for _, at := range up.edgeAtoms(b, si) {
+					if isNil, ok := isPrevNil(at.e, at.truth); ok && at.tag == nil && isNil {
+						return true
+					}
+				}
+				return false
+			})
+			leak := false
+			for _, n := range reached {
+				for _, u := range uses {
+					if containsNode(n, u) {
+						isDef := false
+						for _, d := range prevDefs {
+							if n == d {
+								isDef = true
+							}
+						}
+						if !isDef {
+							leak = true
+						}
+					}
+				}
+			}
+			lowOK = okDefs && len(prevDefs) > 0 && len(uses) > 0 && !leak
+		}
+	}
 	c.Ob("range-args", "transferKeysUpward#low-defaults-to-self", up.Body.Pos(), lowOK, "low is the previous predecessor, or self when there is none")
 
 	down := chordFn(c, "LocalNode", "transferKeysDownward")
